@@ -1218,7 +1218,7 @@ impl SubRule {
         Ok(())
     }
     
-    fn apply_seg_mods(&self, word: &mut Word, pos: SegPos, mods: &Modifiers, var: &Option<usize>, err_pos: Position) -> Result<i8, RuleRuntimeError>{
+    fn apply_seg_mods(&self, word: &mut Word, pos: SegPos, mods: &Modifiers, var: &Option<usize>, err_pos: Position) -> Result<isize, RuleRuntimeError>{
         let lc = word.apply_seg_mods(&self.alphas, mods, pos, err_pos)?;
 
         if let Some(v) = var {
@@ -1304,7 +1304,7 @@ impl SubRule {
     fn substitution(&self, word: &Word, input: Vec<MatchElement>, next_pos: &mut Option<SegPos>) -> Result<Word, RuleRuntimeError> {
         // the SegPositions captured in input will not be correct if we change the length of a segment
         // therefore we must keep track of a change in a syllable's length and update the SegPositions accordingly
-        let mut total_len_change: Vec<i8> = vec![0; word.syllables.len()];
+        let mut total_len_change: Vec<isize> = vec![0; word.syllables.len()];
         let mut last_pos = SegPos::new(0, 0);
         
         let mut res_word = word.clone();
